@@ -7,17 +7,20 @@ VARIABLES l, st
 \* st.s = [x, profile, exts]; st.freshIds = ids whose current value was accepted while x was FALSE
 Fresh == [poisoned |-> FALSE, s |-> [x |-> FALSE, profile |-> 0, exts |-> <<>>], freshIds |-> {}]
 
-ObsState(o) == [x |-> o.x, profile |-> o.profile, exts |-> [i \in 1..Len(o.ids) |-> [id |-> o.ids[i], val |-> o.vals[i]]]]
+\* the abstract state is the underlying ordered list; the accessors must present it as a map (first match per id)
+ObsState(o) == [x |-> o.x, profile |-> o.profile, exts |-> o.raw]
 ProfileClass(s) == IF ~s.x THEN "noext" ELSE IF s.profile = OneByte THEN "onebyte" ELSE IF s.profile = TwoByte THEN "twobyte" ELSE "legacy"
 Representable(s, id, n) ==
   IF s.profile = OneByte THEN id \in 1..14 /\ n \in 1..16
   ELSE IF s.profile = TwoByte THEN id \in 1..255 /\ n \in 0..255
   ELSE id = 0
 
-ObsReason(o, t) ==
+ObsReason(o, t, prev) ==
   IF o.res # "ok" THEN "accessor_panic"
   ELSE IF ~o.x /\ o.ids # <<>> THEN "ids_reported_without_extension"
-  ELSE IF ~UniqueIds(t.exts) THEN "duplicate_ids"
+  ELSE IF o.ids # IdsOf(t.exts) THEN "getextensionids_disagrees_with_list"
+  ELSE IF o.vals # [i \in 1..Len(o.ids) |-> Lookup(t.exts, o.ids[i])] THEN "getextension_not_first_match"
+  ELSE IF ~UniqueIds(t.exts) /\ UniqueIds(prev) THEN "duplicate_ids"      \* a wire image may repeat an id; the accessors must not create repeats
   ELSE IF \E i \in 1..Len(o.probes) : o.probes[i].val # Lookup(t.exts, o.probes[i].id) THEN "get_disagrees_with_ids"      \* probes: ids not listed by GetExtensionIDs
   ELSE ""
 
@@ -35,7 +38,7 @@ WireReason(w, t, freshIds) ==
           THEN "wire_unreadable_unrepresentable_accepted_on_fresh_header"
           ELSE "wire_unmarshal_rejects_" \o pc)
   ELSE
-    LET lost == { i \in 1..Len(t.exts) : ProbeVal(w, t.exts[i].id) # t.exts[i].val } IN
+    LET lost == { i \in 1..Len(t.exts) : ProbeVal(w, t.exts[i].id) # Lookup(t.exts, t.exts[i].id) } IN      \* per id: what GetExtension shows before = after the wire
     IF lost = {} THEN ""
     ELSE IF \E i \in lost : ~Representable(t, t.exts[i].id, Len(t.exts[i].val)) /\ t.exts[i].id \in freshIds
          THEN "wire_lost_unrepresentable_accepted_on_fresh_header"
@@ -54,7 +57,7 @@ FreshAfter(e, s) ==
 \* refusal of the step itself: the state after it is unknown, the case is poisoned
 EffectReason(e, s) ==
   LET t == ObsState(e.obs) IN
-  IF e.ev = "start" THEN ObsReason(e.obs, t)
+  IF e.ev = "start" THEN ObsReason(e.obs, t, t.exts)      \* the start state is whatever Unmarshal produced (it may repeat an id)
   ELSE IF e.res = "panic" THEN e.ev \o "_panic"
   ELSE IF e.ev = "set" /\ ~SetEffect(s.s, e.id, Pat(e.len, e.salt), e.res, t)
        THEN (IF e.res = "err" THEN "set_error_changed_header" ELSE "set_effect")
@@ -62,7 +65,7 @@ EffectReason(e, s) ==
        THEN (IF e.res = "err" THEN "set_error_changed_header" ELSE "set_effect_shared_value")
   ELSE IF e.ev = "del" /\ ~DelEffect(s.s, e.id, e.res, t)
        THEN (IF e.res = "err" THEN "del_error_changed_header" ELSE "del_effect")
-  ELSE ObsReason(e.obs, t)
+  ELSE ObsReason(e.obs, t, s.s.exts)
 \* the wire round trip is an observation: a refusal is reported, the history goes on
 WireR(e, s) == WireReason(e.wire, ObsState(e.obs), IF e.ev = "start" THEN {} ELSE FreshAfter(e, s))
 
